@@ -347,10 +347,21 @@ def snapshot(repo, root, tmpdir):
 
 
 def snap_diff(a, b):
+    if "unusable" in b and "unusable" not in a:
+        return "unusable", "a working repository", b["unusable"]
     for k in a:
-        if a[k] != b[k]:
-            return k, a[k], b[k]
+        if a[k] != b.get(k):
+            return k, a[k], b.get(k)
     return None
+
+
+def snapshot_after(repo, root, tmpdir):
+    """The snapshot taken after an operation: a repository (or linked worktree) that git itself can no longer read is
+    a finding about the operation, not an error of the harness."""
+    try:
+        return snapshot(repo, root, tmpdir)
+    except core.HarnessError as e:
+        return {"unusable": str(e)[:300]}
 
 
 # ------------------------------------------------------------------------------------------------
@@ -872,7 +883,7 @@ def execute(plan, ctx):
                 importlib.invalidate_caches()
                 for key in [k for k in sys.path_importer_cache if k.startswith(root)]:
                     del sys.path_importer_cache[key]
-            after = (snapshot(repo, root, tmpdir), snapshot(main_repo, root, tmpdir) if main_repo != repo else None)
+            after = (snapshot_after(repo, root, tmpdir), snapshot_after(main_repo, root, tmpdir) if main_repo != repo else None)
             if outer is not None:
                 d = snap_diff(outer_before, snapshot(outer, root, tmpdir))
                 if d is not None:
